@@ -5,7 +5,7 @@
 N=${1:-3}
 S=/tmp/sr-verif; rm -rf $S; mkdir -p $S
 cp -r /verif/bin /verif/spec /verif/props /verif/known_findings.txt $S/
-cd /verif; ls -d ${SEEDED_ONLY:-seeded/C??-?} > $S/list.txt
+cd /verif; ls -d ${SEEDED_ONLY:-seeded/C??-[0-9]*} > $S/list.txt
 for i in $(seq 1 $N); do
   git -C /repo worktree remove --force /tmp/sr-repo-$i 2>/dev/null
   git -C /repo worktree add -q --detach /tmp/sr-repo-$i HEAD || exit 2
